@@ -35,7 +35,7 @@ m = {
         "enable": "RUSTFLAGS='--cfg vls_verif' (set by bin/check for the checks that need hooks; separate target dir harness/target-hooks)",
         "baseline_off_cmd": "cd /repo && cargo nextest run --workspace --no-fail-fast --tool-config-file pb:/w/lib/nextest.toml --profile pb --test-threads 8 --offline",
         "source_commits": props.HOOK_COMMITS,
-        "add_only": True,
+        "add_only": False,
     },
     "engines": [
         {"name": "lean4+correspondence", "path": "lean/ (model, theorems, driver), translate/ (Rust source -> Lean tables), harness/ (Rust correspondence + monitors), bin/check",
